@@ -200,11 +200,12 @@ def c01(ctx):
                     if len(samples) < 4:
                         samples.append({"chunker": k[0], "compression": k[1], "source": k[2], "input": k[3], "clone_over_http": k[4]})
     many_chunks(bita, root, viol, cov, thorough)
+    interrupted_transfers(bita, root, viol, cov)
     if thorough:
         big_source(bita, root, viol, cov)
     shutil.rmtree(root, ignore_errors=True)
     cov.update({"evaluations": len(cases), "distinct_nontrivial": len(distinct), "exhaustive": True, "samples": samples,
-                "rule": "real binary: {fixed, rollsum, buzhash, default parameters} x {none, brotli, zstd, lzma} x {empty, 1 byte, 40 B, 3 kB, 5 kB zeros (thorough: + >1 MiB)} x {file input, stdin input (quick: every 3rd)}: bita compress -> bita clone --verify-output (local / HTTP alternating) -> bytes, exit status, temp file removed, bita info; a source of 70 000 unique 4-byte chunks (indexes beyond 2^16) compressed and cloned (thorough: re-cloned in place over its reverse); thorough: a sparse source of 4 GiB + 3 MiB + 12345 bytes with distinct chunks below / at / above offset 2^32, compressed, cloned and re-cloned in place over a prior output with two of them swapped; non-trivial = distinct cells that ran to the end"})
+                "rule": "real binary: {fixed, rollsum, buzhash, default parameters} x {none, brotli, zstd, lzma} x {empty, 1 byte, 40 B, 3 kB, 5 kB zeros (thorough: + >1 MiB)} x {file input, stdin input (quick: every 3rd)}: bita compress -> bita clone --verify-output (local / HTTP alternating) -> bytes, exit status, temp file removed, bita info; clones over HTTP with the connection dropped inside the chunk data at 7 positions (retry budget 3); a source of 70 000 unique 4-byte chunks (indexes beyond 2^16) compressed and cloned (thorough: re-cloned in place over its reverse); thorough: a sparse source of 4 GiB + 3 MiB + 12345 bytes with distinct chunks below / at / above offset 2^32, compressed, cloned and re-cloned in place over a prior output with two of them swapped; non-trivial = distinct cells that ran to the end"})
     return result(ctx["pid"], "exploration", cov, viol, t0, ["A5: real binary observed at process boundary"])
 
 
@@ -241,6 +242,42 @@ def many_chunks(bita, root, viol, cov, thorough):
     elif open(out, "rb").read() != source:
         viol.add("success-with-wrong-output", dict(detail, step="in place over the reverse order"))
     cov["many_chunk_cases"] = 2
+
+
+def interrupted_transfers(bita, root, viol, cov):
+    """compress -> clone over HTTP where the server drops the connection in the middle of a chunk-data body
+    (at several positions, once or twice) and the retry budget covers it: the source must still come out."""
+    source = pattern(6000, 11)
+    d = os.path.join(root, "cut")
+    os.makedirs(d)
+    src, arc = os.path.join(d, "src.bin"), os.path.join(d, "a.cba")
+    with open(src, "wb") as f:
+        f.write(source)
+    r = sh([bita, "compress", "--fixed-size", "256B", "--compression", "none", "-i", src, arc])
+    if r.returncode != 0:
+        raise RuntimeError("compress failed: " + r.stderr.decode())
+    with open(arc, "rb") as f:
+        ab = f.read()
+    n = 0
+    for cut_at, cuts in ((1, 1), (255, 1), (256, 1), (300, 1), (1333, 1), (700, 2), (5999, 1)):
+        state = {"left": cuts}
+
+        def behaviour(index, path, rng, cut_at=cut_at, state=state):
+            # request 0 and 1 read the header; the chunk data requests follow
+            if index >= 2 and state["left"] > 0:
+                state["left"] -= 1
+                return {"close_after": cut_at}
+            return None
+        out = os.path.join(d, f"out-{cut_at}-{cuts}.bin")
+        with RangeServer({"a.cba": ab}, behaviour=behaviour) as srv:
+            r = sh([bita, "clone", "--http-retry-count", "3", "--http-retry-delay", "0", srv.url("a.cba"), out], timeout=120)
+        n += 1
+        detail = {"case": f"connection dropped after {cut_at} body bytes of the chunk data, {cuts} time(s); --http-retry-count 3"}
+        if r.returncode != 0:
+            viol.add("valid-clone-failed", dict(detail, stderr=r.stderr.decode()[-300:]))
+        elif open(out, "rb").read() != source:
+            viol.add("success-with-wrong-output", detail)
+    cov["interrupted_transfer_clones"] = n
 
 
 def files_equal(a, b):
@@ -536,6 +573,33 @@ def words(s, junk_salt=0):
     return out
 
 
+def run_with_fifo(argv, fifo, data, timeout=60):
+    """Run argv while a thread feeds `data` into the named pipe `fifo` (released if the command never opens it)."""
+    import threading
+    p = subprocess.Popen(argv, env=env(), stdin=subprocess.DEVNULL, stdout=subprocess.PIPE, stderr=subprocess.PIPE)
+
+    def w():
+        try:
+            with open(fifo, "wb") as f:
+                f.write(data)
+        except OSError:
+            pass
+    th = threading.Thread(target=w, daemon=True)
+    th.start()
+    try:
+        so, se = p.communicate(timeout=timeout)
+    except subprocess.TimeoutExpired:
+        p.kill()
+        so, se = p.communicate()
+    try:
+        fd = os.open(fifo, os.O_RDONLY | os.O_NONBLOCK)
+        th.join(timeout=2)
+        os.close(fd)
+    except OSError:
+        pass
+    return subprocess.CompletedProcess(argv, p.returncode, so, se)
+
+
 def _inplace(ctx, pid, observe_fetch):
     t0 = time.time()
     bita = ctx["bita"]
@@ -543,6 +607,10 @@ def _inplace(ctx, pid, observe_fetch):
     viol = Viol(pid.lower())
     kinds = ["file", "new-file"] + (["block"] if loop_available(root) else [])
     cases = [(l, k) for l in LAYOUTS for k in kinds]
+    if observe_fetch:
+        # the same contents offered as a SEED of every kind instead of as the output itself
+        seed_kinds = ["seed-file", "seed-stdin", "seed-fifo"] + (["seed-block"] if "block" in kinds else [])
+        cases += [(l, k) for l in LAYOUTS[:8] + LAYOUTS[-3:] for k in seed_kinds]
     samples = []
     distinct = set()
     cov = {"output_kinds": kinds, "reused_bytes_reported": 0}
@@ -565,7 +633,26 @@ def _inplace(ctx, pid, observe_fetch):
             srv.files[f"a{i}.cba"] = ab
             dev = None
             flags = ["--seed-output"]
-            if kind == "block":
+            stdin_data, feed = None, None
+            if kind.startswith("seed-"):
+                out = os.path.join(d, "out.bin")
+                if kind == "seed-file":
+                    sp = os.path.join(d, "seed.bin")
+                    with open(sp, "wb") as f:
+                        f.write(prior)
+                    flags = ["--seed", sp]
+                elif kind == "seed-stdin":
+                    flags = ["--seed", "-"]
+                    stdin_data = prior
+                elif kind == "seed-fifo":
+                    sp = os.path.join(d, "seed.fifo")
+                    os.mkfifo(sp)
+                    flags = ["--seed", sp]
+                    feed = sp
+                else:
+                    dev = Loop(d, 8192, prior)
+                    flags = ["--seed", dev.path]
+            elif kind == "block":
                 dev = Loop(d, 8192, prior)
                 out = dev.path
             elif kind == "file":
@@ -575,13 +662,17 @@ def _inplace(ctx, pid, observe_fetch):
             else:
                 out = os.path.join(d, "out.bin")  # absent: --seed-output creates it
             try:
-                r = sh([bita, "clone"] + flags + [srv.url(f"a{i}.cba", f"case={i:04d}"), out])
+                argv = [bita, "clone"] + flags + [srv.url(f"a{i}.cba", f"case={i:04d}"), out]
+                if feed is None:
+                    r = sh(argv, stdin_data=stdin_data)
+                else:
+                    r = run_with_fifo(argv, feed, prior)
                 detail = {"layout": name, "source": s, "prior": p if kind != "new-file" else "", "output_kind": kind}
                 if r.returncode != 0:
                     detail["stderr"] = r.stderr.decode()[-300:]
                     viol.add("valid-clone-failed" if r.returncode != 101 else "clone-panicked", detail)
                     return None
-                ob = dev.read(len(source)) if dev else open(out, "rb").read()
+                ob = dev.read(len(source)) if (dev and kind == "block") else open(out, "rb").read()
                 if ob != source:
                     detail["output"] = ob.hex()
                     viol.add("success-with-wrong-output", detail)
@@ -589,7 +680,7 @@ def _inplace(ctx, pid, observe_fetch):
                 if observe_fetch:
                     # expected: unique source words not present (as aligned 4-byte chunks) in the prior
                     have = set() if kind == "new-file" else {prior[j:j + 4] for j in range(0, len(prior) - 3, 4)}
-                    if kind == "block":
+                    if kind in ("block", "seed-block"):
                         have |= {b"\0\0\0\0"}
                     uniq = []
                     for j in range(0, len(source), 4):
@@ -632,7 +723,7 @@ def _inplace(ctx, pid, observe_fetch):
         shutil.rmtree(root, ignore_errors=True)
     cov.update({"evaluations": len(cases), "distinct_nontrivial": len(distinct), "exhaustive": True, "samples": samples,
                 "rule": "real binary: `bita clone --seed-output` of a FixedSize(4) archive over HTTP onto {existing regular file, absent file, loop block device} holding each of 11 hand-picked prior layouts (identical, shifts, swap, 3-cycle, reverse, duplicates, longer/shorter prior, nothing reusable, F2's layout); oracle: exit 0, output (first source-length bytes of a device) == source"
-                        + ("; the Range requests after the two header reads == maximal runs of the source words not present in the prior output" if observe_fetch else "") + "; non-trivial = distinct (layout, output kind) cells that ran to the end"})
+                        + ("; the Range requests after the two header reads == maximal runs of the source words not present in the prior output; the same contents offered as a seed file, on stdin, through a named pipe and as a loop block device (a seed of every kind must be scanned)" if observe_fetch else "") + "; non-trivial = distinct (layout, output kind) cells that ran to the end"})
     return result(pid, "exploration", cov, viol, t0, ["A5", "loop devices are zero-filled beyond the prior content: a zero word counts as present there"])
 
 
@@ -669,11 +760,43 @@ def c03(ctx):
                 elif open(out, "rb").read() != source:
                     detail["output"] = open(out, "rb").read().hex()
                     viol.add("success-with-wrong-output", detail)
+        # chunks larger than one read(2) / write(2) of the runtime moves (2 MiB, and one byte more): shifts, a rotation
+        # and a swap of whole blocks, in place on a regular file
+        M = 1 << 20
+        big_n = 0
+        for csz in (2 * M + 1, 3 * M):
+            blocks = [bytes([65 + k]) * 9 + bytes((i * (k + 3)) % 251 for i in range(csz - 9)) for k in range(4)]
+            source = b"".join(blocks[:3]) + b"tail" * 100
+            d = os.path.join(root, f"big{csz}")
+            os.makedirs(d)
+            src, arc = os.path.join(d, "src.bin"), os.path.join(d, "a.cba")
+            with open(src, "wb") as f:
+                f.write(source)
+            r = sh([bita, "compress", "--fixed-size", f"{csz}B", "--compression", "none", "-i", src, arc])
+            if r.returncode != 0:
+                raise RuntimeError("compress failed: " + r.stderr.decode())
+            junk = b"#" * csz
+            for lname, prior in (("shift-right", junk + blocks[0] + blocks[1] + blocks[2]), ("shift-left", blocks[1] + blocks[2] + junk),
+                                 ("rotate", blocks[2] + blocks[0] + blocks[1]), ("swap", blocks[1] + blocks[0] + blocks[2])):
+                out = os.path.join(d, lname + ".bin")
+                with open(out, "wb") as f:
+                    f.write(prior)
+                r = sh([bita, "clone", "--seed-output", arc, out], timeout=300)
+                big_n += 1
+                detail = {"layout": f"{lname} of whole blocks", "chunk_size": csz}
+                if r.returncode != 0:
+                    detail["stderr"] = r.stderr.decode()[-300:]
+                    viol.add("valid-clone-failed" if r.returncode != 101 else "clone-panicked", detail)
+                elif open(out, "rb").read() != source:
+                    viol.add("success-with-wrong-output", detail)
+                os.remove(out)
+        n += big_n
     finally:
         shutil.rmtree(root, ignore_errors=True)
     res["coverage"]["evaluations"] += n
-    res["coverage"]["stdin_seed_in_place_cases"] = n
-    res["coverage"]["rule"] += "; plus every layout x every single source word / junk / the whole source piped into `--seed -` together with --seed-output"
+    res["coverage"]["large_chunk_in_place_cases"] = big_n
+    res["coverage"]["stdin_seed_in_place_cases"] = n - big_n
+    res["coverage"]["rule"] += "; plus every layout x every single source word / junk / the whole source piped into `--seed -` together with --seed-output; plus shifts, a rotation and a swap of whole blocks of 2 MiB + 1 and 3 MiB (more than one read(2) / write(2) of the runtime moves)"
     res["violation_classes"] += viol.list()
     res["wall_s"] += time.time() - t0
     return res
